@@ -2157,6 +2157,8 @@ func E11BreakWidth(c *core.Ctx, r *core.Report) {
 	}
 	// Breakpoint literals in mainLoop and in Linebreak (which holds the linebreaker in a local)
 	n := 0
+	var classes []string // per literal: "total" (running total, the parent's total is subtracted later) or "net"
+	var classPos []token.Pos
 	for _, fname := range []string{"linebreaker.mainLoop", "Linebreak"} {
 		fd := core.MustFuncDecl(p, fname)
 		recv := recvObj(info, fd)
@@ -2202,8 +2204,18 @@ func E11BreakWidth(c *core.Ctx, r *core.Report) {
 			n++
 			k++
 			key := fmt.Sprintf("text.%s|Breakpoint #%d|Width", fname, k)
+			// the parent's total may be subtracted right here (net width) instead of later in Linebreak
+			class := "total"
+			if sub, ok := core.Unparen(width).(*ast.BinaryExpr); ok && sub.Op == token.SUB {
+				if se, ok := core.Unparen(sub.Y).(*ast.SelectorExpr); ok && se.Sel.Name == "W" && !isField(sub.Y, recv, "W") {
+					class = "net"
+					width = sub.X
+				}
+			}
+			classes = append(classes, class)
+			classPos = append(classPos, cl.Pos())
 			if overflow {
-				r.OK("E11.break-width", key, c.Pos(cl.Pos()), "overflow break: Overflows is reported")
+				r.OK("E11.break-width", key, c.Pos(cl.Pos()), "overflow break: Overflows is reported ("+class+" width)")
 				return
 			}
 			id, ok := core.Unparen(width).(*ast.Ident)
@@ -2270,6 +2282,40 @@ func E11BreakWidth(c *core.Ctx, r *core.Report) {
 			}
 		}
 		visit(fd.Body.List, false)
+	}
+	// the parent's total is subtracted exactly once: in every constructor, or afterwards for all of them
+	{
+		lfd := core.MustFuncDecl(p, "Linebreak")
+		later := false
+		ast.Inspect(lfd.Body, func(m ast.Node) bool {
+			if as, ok := m.(*ast.AssignStmt); ok && as.Tok == token.SUB_ASSIGN && len(as.Lhs) == 1 && len(as.Rhs) == 1 {
+				l, ok1 := core.Unparen(as.Lhs[0]).(*ast.SelectorExpr)
+				rr, ok2 := core.Unparen(as.Rhs[0]).(*ast.SelectorExpr)
+				if ok1 && ok2 && l.Sel.Name == "Width" && rr.Sel.Name == "W" {
+					later = true
+				}
+			}
+			return true
+		})
+		key := "text.Linebreak|the start of the line is subtracted from its Width exactly once"
+		nets, totals := 0, 0
+		for _, cl := range classes {
+			if cl == "net" {
+				nets++
+			} else {
+				totals++
+			}
+		}
+		switch {
+		case nets > 0 && totals > 0:
+			r.Fail("E11.break-width", key, c.Pos(classPos[0]), fmt.Sprintf("%d constructor(s) of a break store the width of the line (the parent's total already subtracted) and %d store the running total: whichever way Linebreak treats them afterwards, one kind reports a width that is not the line's", nets, totals))
+		case totals > 0 && !later:
+			r.Fail("E11.break-width", key, c.Pos(lfd.Pos()), "the breaks store running totals, and Linebreak no longer subtracts the total at the start of the line (`breaks[…].Width -= b.W`): every line but the first reports the width of the text up to its end")
+		case nets > 0 && later:
+			r.Fail("E11.break-width", key, c.Pos(lfd.Pos()), "the breaks store the width of their line already, and Linebreak subtracts the start of the line again")
+		default:
+			r.OK("E11.break-width", key, c.Pos(lfd.Pos()), map[bool]string{true: "running totals, subtracted afterwards", false: "net widths at creation"}[later])
+		}
 	}
 	r.Count("E11.break-width-literals", n)
 	r.Floor("E11.break-width-literals", 2)
